@@ -75,6 +75,9 @@ type Script struct {
 	Opts  []string `json:"opts"` // upstream OPT option tokens
 	NoOpt bool     `json:"noopt"`
 	NsRec int      `json:"nsrec"` // extra records in the authority section
+	Pre   int      `json:"pre"`   // other additional records in front of the OPT (0..2)
+	Post  int      `json:"post"`  // other additional records behind the OPT (0..2)
+	Fill  string   `json:"fill"`  // "a": fill the answer with A records (16 octets each when compressed)
 }
 
 type Node struct {
@@ -86,6 +89,7 @@ type Node struct {
 	Hit       bool    `json:"hit"`
 	Key       string  `json:"key"`
 	Collide   string  `json:"collide"`
+	Lazy      bool    `json:"lazy"` // cache with lazy_cache_ttl; the hit is a stale (expired) entry
 	Forward   bool    `json:"forward"`
 	Preset    bool    `json:"preset"`
 	Send      bool    `json:"send"`
@@ -110,6 +114,7 @@ type Case struct {
 	Qclass uint16 `json:"qclass"`
 	Flags  uint16 `json:"flags"` // header flag word with QR cleared
 	Settle int    `json:"settle"` // ms to wait for straggling copies (dual_selector / fallback)
+	Pair   bool   `json:"pair"`   // two interleaved clients (IDs id and id^0x1111) hit the same stale cache entry
 }
 
 type Job struct {
@@ -402,6 +407,12 @@ func buildAnswer(q *dns.Msg, sc *Script) *dns.Msg {
 	if len(q.Question) > 0 {
 		name = q.Question[0].Name
 	}
+	glue := func(i int) dns.RR {
+		return &dns.A{Hdr: dns.RR_Header{Name: fmt.Sprintf("glue%d.invalid.", i), Rrtype: dns.TypeA, Class: dns.ClassINET, Ttl: 300}, A: net.IP{192, 0, 2, byte(100 + i)}}
+	}
+	for i := 0; i < sc.Pre; i++ {
+		r.Extra = append(r.Extra, glue(i))
+	}
 	if !sc.NoOpt {
 		o := &dns.OPT{Hdr: dns.RR_Header{Name: ".", Rrtype: dns.TypeOPT}}
 		o.SetUDPSize(1452)
@@ -412,6 +423,9 @@ func buildAnswer(q *dns.Msg, sc *Script) *dns.Msg {
 			o.SetExtendedRcode(uint16(sc.Rcode))
 		}
 		r.Extra = append(r.Extra, o)
+	}
+	for i := 0; i < sc.Post; i++ {
+		r.Extra = append(r.Extra, glue(10+i))
 	}
 	if sc.Rcode > 0xF {
 		r.Rcode = sc.Rcode
@@ -436,6 +450,13 @@ func buildAnswer(q *dns.Msg, sc *Script) *dns.Msg {
 		return t
 	}
 	r.Answer = append(r.Answer, &dns.A{Hdr: dns.RR_Header{Name: name, Rrtype: dns.TypeA, Class: dns.ClassINET, Ttl: 300}, A: net.IP{192, 0, 2, 1}})
+	if sc.Fill == "a" {
+		// small records: after a truncation the reply ends within 16 octets of the limit
+		for i := 2; r.Len() < sc.Size && i < 5000; i++ {
+			r.Answer = append(r.Answer, &dns.A{Hdr: dns.RR_Header{Name: name, Rrtype: dns.TypeA, Class: dns.ClassINET, Ttl: 300}, A: net.IP{192, 0, byte(i >> 8), byte(i)}})
+		}
+		return r
+	}
 	for r.Len() < sc.Size {
 		rest := sc.Size - r.Len()
 		per := len(name) + 1 + 10 + 1 // owner (approx) + fixed + one length octet
@@ -471,6 +492,7 @@ type terminal struct {
 	cs     *caseRun
 	script *Script
 	warm   bool
+	ttl    uint32
 }
 
 func (u *terminal) Exec(ctx context.Context, qCtx *query_context.Context) error {
@@ -480,12 +502,13 @@ func (u *terminal) Exec(ctx context.Context, qCtx *query_context.Context) error 
 		r.SetReply(qCtx.Q())
 		n := qCtx.QQuestion().Name
 		for i := 0; i < 2; i++ {
-			r.Answer = append(r.Answer, &dns.A{Hdr: dns.RR_Header{Name: n, Rrtype: dns.TypeA, Class: dns.ClassINET, Ttl: 300}, A: net.IP{192, 0, 2, byte(50 + i)}})
+			r.Answer = append(r.Answer, &dns.A{Hdr: dns.RR_Header{Name: n, Rrtype: dns.TypeA, Class: dns.ClassINET, Ttl: u.ttl}, A: net.IP{192, 0, 2, byte(50 + i)}})
 		}
 		o := &dns.OPT{Hdr: dns.RR_Header{Name: ".", Rrtype: dns.TypeOPT}}
 		o.SetUDPSize(1452)
 		o.Option = append(o.Option, optionFor("uP"), optionFor("uC"))
 		r.Extra = append(r.Extra, o)
+		r.Extra = append(r.Extra, &dns.A{Hdr: dns.RR_Header{Name: "glue.invalid.", Rrtype: dns.TypeA, Class: dns.ClassINET, Ttl: u.ttl}, A: net.IP{192, 0, 2, 99}})
 		qCtx.SetResponse(r)
 		return nil
 	}
@@ -683,12 +706,20 @@ func (b *builder) rule(n *Node, seqName string) (string, error) {
 		}
 		return b.add("redir", r), nil
 	case "cache":
-		ca := cache.NewCache(&cache.Args{}, cache.Opts{})
+		args := &cache.Args{}
+		if n.Lazy {
+			args.LazyCacheTTL = 3600
+		}
+		ca := cache.NewCache(args, cache.Opts{})
 		b.cs.caches = append(b.cs.caches, ca)
 		t := b.add("cache", ca)
 		if n.Hit {
 			// warm-up sequence sharing the cache instance
-			wt := b.add("warmup", &terminal{cs: b.cs, warm: true})
+			wttl := uint32(300)
+			if n.Lazy {
+				wttl = 1
+			}
+			wt := b.add("warmup", &terminal{cs: b.cs, warm: true, ttl: wttl})
 			ws, err := sequence.NewSequence(sequence.NewBQ(b.m, b.m.Logger()), []sequence.RuleArgs{{Exec: t}, {Exec: wt}})
 			if err != nil {
 				return "", err
@@ -696,6 +727,10 @@ func (b *builder) rule(n *Node, seqName string) (string, error) {
 			b.cs.closers = append(b.cs.closers, ws)
 			if err := b.warm(ws, n); err != nil {
 				return "", err
+			}
+			if n.Lazy {
+				time.Sleep(1200 * time.Millisecond) // the stored answer (TTL 1) expires, the entry stays
+				b.cs.gatePos = len(b.cs.seqKinds) // placeholder, fixed below
 			}
 		}
 		return t, nil
